@@ -8,6 +8,8 @@ import TdVerif.Lemmas.C10Tensor
 import TdVerif.Gen.Dtypes
 import TdVerif.Gen.C12Src
 import TdVerif.Model.C10Pins
+import TdVerif.Model.C10MetaTask
+import TdVerif.Model.C10Nested
 
 namespace TdVerif.Props.C10
 open TdVerif.C10
@@ -314,6 +316,218 @@ example :
 /-- the excluded point: key "a.memmap" as a node beside a leaf "a" -/
 example : ¬ PathSafe (.node [] "None" [("a", .leaf "torch.uint8" [] [1]), ("a.memmap", .node [] "None" [])]) := by
   simp [PathSafe, entryName]
+
+-- ------------------------------------------------------------------ a leaf that is a nested tensor; recorded file names
+section Nested
+
+theorem rowsOf_flatten (r : Nat) : ∀ (ss : List (List Nat)) (tail : List Nat), (∀ s ∈ ss, s.length = r) →
+    rowsOf r ss.length (ss.flatten ++ tail) = ss := by
+  intro ss
+  induction ss with
+  | nil => intro _ _; rfl
+  | cons s ss ih =>
+    intro tail h
+    have hs : s.length = r := h s (List.mem_cons_self ..)
+    subst hs
+    simp only [List.length_cons, rowsOf, List.flatten_cons, List.append_assoc]
+    rw [List.take_left', List.drop_left', ih tail (fun x hx => h x (List.mem_cons_of_mem _ hx))] <;> rfl
+
+theorem splitBy_flatten : ∀ (ds : List (List Nat)) (tail : List Nat), splitBy (ds.map List.length) (ds.flatten ++ tail) = ds := by
+  intro ds
+  induction ds with
+  | nil => intro _; rfl
+  | cons d ds ih =>
+    intro tail
+    simp only [List.map_cons, splitBy, List.flatten_cons, List.append_assoc]
+    rw [List.take_left', List.drop_left', ih tail] <;> rfl
+
+theorem splitBy_length : ∀ (ns : List Nat) (l : List Nat), (splitBy ns l).length = ns.length := by
+  intro ns
+  induction ns with
+  | nil => intro _; rfl
+  | cons n ns ih => intro l; simp [splitBy, ih]
+
+theorem zip_fst_snd {α β : Type} (l : List (α × β)) : (l.map (·.1)).zip (l.map (·.2)) = l := by
+  induction l <;> simp_all
+
+theorem value_file_congr (fs fs' : FS) (a : Path) (idx : List Nat) (h : fs a = fs' a) :
+    (Src.file a idx).value fs = (Src.file a idx).value fs' := by
+  simp [Src.value, fileBytes, h]
+
+theorem shapePath_ne_dataPath (dir : Path) (key : String) : shapePath dir key ≠ dataPath dir key := by
+  intro h
+  have h1 := List.append_cancel_left h
+  have h2 : key ++ ".shape" ++ ".memmap" = key ++ ".memmap" := by simpa using h1
+  have h3 := congrArg String.length h2
+  simp only [String.length_append] at h3
+  have e1 : ".shape".length = 6 := by decide
+  have e2 : ".memmap".length = 7 := by decide
+  omega
+
+theorem shapeCells_length (cs : List Comp) (r : Nat) (h : ∀ c ∈ cs, c.1.length = r) : (shapeCells cs).length = cs.length * r := by
+  induction cs with
+  | nil => simp [shapeCells]
+  | cons c cs ih =>
+    have := ih (fun x hx => h x (List.mem_cons_of_mem _ hx))
+    have hc := h c (List.mem_cons_self ..)
+    simp only [shapeCells, List.flatMap_cons, List.length_append, List.length_cons] at *
+    rw [this, hc, Nat.add_mul]; omega
+
+theorem dataCells_length (cs : List Comp) (h : ∀ c ∈ cs, c.2.length = numel c.1) :
+    (dataCells cs).length = ((cs.map (·.1)).map numel).sum := by
+  induction cs with
+  | nil => simp [dataCells]
+  | cons c cs ih =>
+    have := ih (fun x hx => h x (List.mem_cons_of_mem _ hx))
+    have hc := h c (List.mem_cons_self ..)
+    simp only [dataCells, List.flatMap_cons, List.length_append, List.map_cons, List.sum_cons] at *
+    rw [this, hc]
+
+/-- **a nested-tensor leaf round-trips**: for every list of components of one rank (any shapes, any content), any directory and key, whatever the
+    file system held before (`existsok`), `_populate_memmap` succeeds; the loader's `is_nested` branch reads back **the component shapes
+    whether or not the values were asked for** (`like`), and — when they were — exactly the components; no file other than `<key>.memmap` and
+    `<key>.shape.memmap` changes -/
+theorem nested_leaf_roundtrip (fs : FS) (dir : Path) (key : String) (cs : List Comp) (r : Nat) (like : Bool)
+    (hwf : ∀ c ∈ cs, c.1.length = r ∧ c.2.length = numel c.1) :
+    ∃ fs', populateNested fs dir key cs true like true = .ok fs'
+      ∧ (loadNested fs' dir key cs.length r).map (·.1) = cs.map (·.1)
+      ∧ (like = false → loadNested fs' dir key cs.length r = cs)
+      ∧ ∀ q, q ≠ shapePath dir key → q ≠ dataPath dir key → fs' q = fs q := by
+  obtain ⟨fs1, t1, h1ok, h1read, _, h1other⟩ := populate_saves_value fs dir (key ++ ".shape") (.mem (shapeCells cs)) (by intro p idx h; cases h)
+  have hne := shapePath_ne_dataPath dir key
+  have hsl := shapeCells_length cs r (fun c hc => (hwf c hc).1)
+  have hdl := dataCells_length cs (fun c hc => (hwf c hc).2)
+  -- the second task
+  have h2 : ∃ fs2 t2, populate fs1 dir key (.mem (dataCells cs)) true like true = .ok (fs2, t2)
+      ∧ (like = false → (fromFilename (dataPath dir key) (dataCells cs).length).value fs2 = dataCells cs)
+      ∧ ∀ q, q ≠ dataPath dir key → fs2 q = fs1 q := by
+    cases like with
+    | false =>
+      obtain ⟨fs2, t2, hok, hread, _, hother⟩ := populate_saves_value fs1 dir key (.mem (dataCells cs)) (by intro p idx h; cases h)
+      exact ⟨fs2, t2, hok, fun _ => by simpa [Src.value, dataPath] using hread, fun q hq => hother q (by simpa [dataPath] using hq)⟩
+    | true =>
+      exact ⟨mapAndCopy fs1 (dataPath dir key) (dataCells cs).length none, .file (dataPath dir key) (List.range (dataCells cs).length),
+        by simp [populate, fromTensor, dataPath, Src.value], fun h => absurd h (by decide),
+        fun q hq => mapAndCopy_other fs1 _ q _ _ hq⟩
+  obtain ⟨fs2, t2, h2ok, h2read, h2other⟩ := h2
+  have hshape : (fromFilename (shapePath dir key) (cs.length * r)).value fs2 = shapeCells cs := by
+    have e : fs2 (shapePath dir key) = fs1 (shapePath dir key) := h2other _ hne
+    rw [fromFilename, value_file_congr fs2 fs1 _ _ e]
+    rw [← hsl]
+    simpa [fromFilename, shapePath, Src.value] using h1read
+  have hrows : rowsOf r cs.length (shapeCells cs) = cs.map (·.1) := by
+    have := rowsOf_flatten r (cs.map (·.1)) [] (by intro s hs; obtain ⟨c, hc, rfl⟩ := List.mem_map.mp hs; exact (hwf c hc).1)
+    simpa [shapeCells, List.flatMap_def] using this
+  refine ⟨fs2, ?_, ?_, ?_, ?_⟩
+  · simp [populateNested, populateNestedWith, h1ok, h2ok]
+  · simp only [loadNested, hshape, hrows]
+    rw [List.map_fst_zip]
+    simp [splitBy_length]
+  · intro hl
+    simp only [loadNested, hshape, hrows]
+    rw [← hdl, h2read hl]
+    have hsplit : splitBy ((cs.map (·.1)).map numel) (dataCells cs) = cs.map (·.2) := by
+      have hlen : (cs.map (·.1)).map numel = (cs.map (·.2)).map List.length := by
+        simp only [List.map_map]
+        exact List.map_congr_left (fun c hc => by simp [(hwf c hc).2])
+      have := splitBy_flatten (cs.map (·.2)) []
+      rw [hlen]
+      simpa [dataCells, List.flatMap_def] using this
+    rw [hsplit]
+    exact zip_fst_snd cs
+  · intro q hq1 hq2
+    rw [h2other q hq2]
+    exact h1other q (by simpa [shapePath] using hq1)
+
+/-- the seeded variant (C10-5: the side file written with `copy_data = not like`): after `make_memmap_from_tensor(copy_data=False)` of two
+    components of 3 and 5 cells a fresh load finds components of shape `[0]` -/
+theorem nested_side_file_like_variant_counterexample :
+    let cs : List Comp := [([3], [1, 2, 3]), ([5], [4, 5, 6, 7, 8])]
+    let fs0 : FS := fun _ => none
+    (match populateNested fs0 [] "j" cs true true true with
+      | .ok fs' => (loadNested fs' [] "j" 2 1).map (·.1) | .error _ => []) = [[3], [5]]
+    ∧ (match populateNestedWith false fs0 [] "j" cs true true true with
+      | .ok fs' => (loadNested fs' [] "j" 2 1).map (·.1) | .error _ => []) = [[0], [0]] := by
+  decide
+
+/-- the name recorded by a save is the working directory **at that moment** joined with the relative name, whatever happened before
+    (other saves under the same relative name, other working directories) -/
+theorem recorded_name_history_independent (h : List NameOp) (cwd0 d rel : Path) :
+    (recordedNames cwd0 (h ++ [.chdir d, .save rel])).getLast? = some (d ++ rel) := by
+  induction h generalizing cwd0 with
+  | nil => simp [recordedNames]
+  | cons op h ih =>
+    cases op with
+    | chdir d' => simpa [recordedNames] using ih d'
+    | save rel' =>
+      have := ih cwd0
+      simp only [List.cons_append, recordedNames]
+      cases hrest : recordedNames cwd0 (h ++ [.chdir d, .save rel]) with
+      | nil => rw [hrest] at this; cases this
+      | cons x xs => rw [hrest] at this; simpa [List.getLast?_cons_cons] using this
+
+/-- the seeded variant (C10-6: absolute names cached by relative name): `ckpt` saved from `A`, then from `B`, records `A/ckpt` twice -/
+theorem recorded_name_cached_variant_counterexample :
+    recordedNames [] [.chdir ["A"], .save ["ckpt"], .chdir ["B"], .save ["ckpt"]] = [["A", "ckpt"], ["B", "ckpt"]]
+    ∧ recordedNamesCached [] [] [.chdir ["A"], .save ["ckpt"], .chdir ["B"], .save ["ckpt"]] = [["A", "ckpt"], ["A", "ckpt"]] := by
+  decide
+
+end Nested
+
+-- ------------------------------------------------------------------ the `save_metadata` task of a non-tensor entry against its caller
+section MetaTask
+open TdVerif.C10.MetaTask
+
+/-- `memmap_` (in place): the task iterates a private copy of the non-tensor dict: it sees exactly that dict, whatever the schedule -/
+theorem metadata_task_inplace_schedule_independent (d0 : D) : runTaskInplace d0 = Out.ok d0 := by
+  unfold runTaskInplace runTask
+  have := iterate_const (fun _ => d0) d0 (d0.length + 1) 0 1 [] (Nat.zero_le _) (by omega) (fun _ _ _ => rfl)
+  simpa using this
+
+/-- `memmap` / `save` (not in place): when the task has finished (iterator made + `len + 1` calls of `next()`) before the caller touches the
+    dict it handed over, the task saw the dict as it was: the single-threaded outcome -/
+theorem metadata_task_done_first (d0 : D) (exp : List String) (p1 p2 : Nat) (h : d0.length + 2 ≤ p1) :
+    runTask (liveAt d0 exp p1 p2) = Out.ok d0 := by
+  have h0 : liveAt d0 exp p1 p2 0 = d0 := by simp [liveAt]; omega
+  unfold runTask
+  rw [h0]
+  have := iterate_const (liveAt d0 exp p1 p2) d0 (d0.length + 1) 0 1 [] (Nat.zero_le _) (by omega)
+    (fun s _ h2 => by simp [liveAt]; omega)
+  simpa using this
+
+theorem setKey_length_ge (d : D) (k : String) (v : V) : d.length ≤ (setKey d k v).length := by
+  unfold setKey; split <;> simp
+
+/-- `_partial` (recorded finding C10-nontensor-metadata-task-race): when `_from_tensordict` adds a missing expected key while the task is
+    between making its iterator and its last `next()`, the save raises — for **every** such schedule -/
+theorem metadata_task_error_window_partial (d0 : D) (exp : List String) (p1 p2 : Nat)
+    (hadd : d0.length < (addMissing d0 exp).length) (h1 : 1 ≤ p1) (h2 : p1 ≤ d0.length + 1) :
+    runTask (liveAt d0 exp p1 p2) = Out.err := by
+  have h0 : liveAt d0 exp p1 p2 0 = d0 := by simp [liveAt]; omega
+  have hne : (liveAt d0 exp p1 p2 p1).length ≠ d0.length := by
+    simp only [liveAt, Nat.lt_irrefl, ↓reduceIte]
+    split
+    · omega
+    · have := setKey_length_ge (addMissing d0 exp) "_metadata" V.pickle
+      unfold setMeta; omega
+  unfold runTask
+  rw [h0]
+  exact iterate_err (liveAt d0 exp p1 p2) d0 p1 hne (d0.length + 1) 0 1 [] rfl h1 (by omega) (by omega)
+    (fun s _ h3 => by simp [liveAt, h3])
+
+/-- counter-witness, a fresh `NonTensorData` (`{"data": …, "_metadata": None}`, expected keys + `_is_non_tensor`): four schedules, four
+    different things on disk / outcomes; only the first is what `num_threads=0` does -/
+theorem metadata_task_schedule_dependent_counterexample :
+    let d0 : D := [("data", V.json), ("_metadata", V.null)]
+    let exp := ["data", "_metadata", "_is_non_tensor"]
+    runTask (liveAt d0 exp 9 9) = Out.ok d0
+      ∧ runTask (liveAt d0 exp 1 9) = Out.err ∧ runTask (liveAt d0 exp 2 2) = Out.err ∧ runTask (liveAt d0 exp 3 9) = Out.err
+      ∧ runTask (liveAt d0 exp 0 9) = Out.ok [("data", V.json), ("_metadata", V.null), ("_is_non_tensor", V.null)]
+      ∧ runTask (liveAt d0 exp 0 0) = Out.ok [("data", V.json), ("_metadata", V.pickle), ("_is_non_tensor", V.null)]
+      ∧ pickleKeys [("data", V.json), ("_metadata", V.pickle), ("_is_non_tensor", V.null)] = ["_metadata"] := by
+  decide
+
+end MetaTask
 
 /-- the functions the C10 models transcribe are, in the working tree, the ones they were transcribed from (AST hashes,
     docstrings removed; regenerated by harness/c12_pins.py on every run): an edit of a transcribed function breaks this
